@@ -713,17 +713,32 @@ impl<'a> MCtx<'a> {
                 }
         });
         let s = pick(self.rng, &c)?;
+        let k = self.rng.below(4);
         let wrong = match s.ty.unwrapped() {
-            "Boolean" => Val::Int("1".into(), p0()),
-            "Int" | "Float" => Val::Str("wrong".into(), p0()),
-            "String" => Val::Int("1".into(), p0()),
-            "ID" => Val::Bool(true, p0()),
+            "Boolean" => [Val::Int("1".into(), p0()), Val::Int("0".into(), p0()), Val::Str("true".into(), p0()), Val::Float("1.0".into(), p0())][k].clone(),
+            // a Float literal is no Int, whatever its value (spec 3.5.1)
+            "Int" => [Val::Str("wrong".into(), p0()), Val::Float("1.0".into(), p0()), Val::Float("2e3".into(), p0()), Val::Float("-0.0".into(), p0())][k].clone(),
+            "Float" => [Val::Str("wrong".into(), p0()), Val::Str("1.5".into(), p0()), Val::Bool(true, p0()), Val::Str("1e3".into(), p0())][k].clone(),
+            "String" => [Val::Int("1".into(), p0()), Val::Float("1.5".into(), p0()), Val::Bool(false, p0()), Val::Int("-0".into(), p0())][k].clone(),
+            // ID takes strings and integer literals, not Float literals (spec 3.5.5)
+            "ID" => [Val::Bool(true, p0()), Val::Float("1.5".into(), p0()), Val::Float("1e3".into(), p0()), Val::Float("4294967296.0".into(), p0())][k].clone(),
             n if self.sch.kind_of(n) == Some(TypeKind::Enum) => Val::Str("x".into(), p0()),
             _ => Val::Int("1".into(), p0()),
         };
         let mut doc = self.doc.clone();
         *val_mut(&mut doc, &s.owner, &s.inner) = wrong;
         Some(Mutant { doc, label: self.label("5.6.1", &s.class, "wrong-literal-type") })
+    }
+    /// an integer literal outside the signed 32-bit range where `Int` is expected (spec 3.5.1 input coercion inside
+    /// 5.6.1; reference predicate `Valid.rule_int32`, id `5.6.1-int32`): argument of a field or directive, input field,
+    /// list item, single value for a list, variable default. One class for all sites (`what` names the site).
+    pub fn int_literal_outside_32_bit_range(&mut self) -> Option<Mutant> {
+        let c = self.val_sites(|s, v| s.ty.unwrapped() == "Int" && (is_leaf_literal(v) || matches!(v, Val::Null(_))));
+        let s = pick(self.rng, &c)?;
+        let text = OUT_OF_INT32[self.rng.below(OUT_OF_INT32.len())];
+        let mut doc = self.doc.clone();
+        *val_mut(&mut doc, &s.owner, &s.inner) = Val::Int(text.into(), p0());
+        Some(Mutant { doc, label: self.label("5.6.1-int32", "int-position", "int-literal-outside-32-bit-range") })
     }
     pub fn bad_enum_member(&mut self) -> Option<Mutant> {
         let sch = self.sch;
@@ -1594,6 +1609,110 @@ pub fn shape_reorder(rng: &mut Rng, doc: &Doc) -> Doc {
 /// names of the definitions of `after` that are not (unchanged) in `before` — the definitions a mutation touched
 pub fn touched_definitions(before: &Doc, after: &Doc) -> Vec<String> {
     after.defs.iter().filter(|d| !before.defs.contains(d)).filter_map(|d| d.name().map(|s| s.to_string())).collect()
+}
+
+// ------------------------------------------------------------------------------------------------
+// numeric boundary literals
+
+/// integer literals that are no 32-bit values
+pub const OUT_OF_INT32: [&str; 8] = ["2147483648", "-2147483649", "4294967296", "3000000000", "9007199254740992", "-9007199254740993", "12345678901234567890", "-9223372036854775809"];
+/// integer literals that are 32-bit values, boundaries included
+pub const IN_INT32: [&str; 9] = ["0", "-0", "1", "-1", "2147483647", "-2147483647", "-2147483648", "1000000000", "-2000000000"];
+/// Float literals at and beyond the usual boundaries
+pub const FLOATS: [&str; 10] = ["0.0", "-0.0", "1e0", "2147483648.0", "-2.147483649e9", "9007199254740993.0", "1e308", "1.5E-300", "1e400", "-123456789012345678901234567890.5"];
+
+/// C04: boundary numbers at Int / Float / ID positions (arguments of fields and directives, input fields, list items, a
+/// single value for a list, variable defaults). Int positions get 32-bit values only, Float positions any integer or
+/// Float literal, ID positions any integer literal. Returns None when the document has no such position.
+pub fn boundary_numbers(rng: &mut Rng, sch: &Sch, doc: &Doc) -> Option<(Doc, BTreeSet<String>)> {
+    let sites = collect_sites(sch, doc);
+    let mut out = doc.clone();
+    let mut feats = BTreeSet::new();
+    for s in &sites.vals {
+        let base = s.ty.unwrapped();
+        if !matches!(base, "Int" | "Float" | "ID") {
+            continue;
+        }
+        // a site below an already replaced list no longer exists
+        let cur = {
+            let mut d = out.clone();
+            let mut ok = true;
+            let mut v: &Val = match &s.owner {
+                ValOwner::FieldArg(r, a) => match sel_mut(&mut d, r) {
+                    Sel::Field { args, .. } => &args[*a].value,
+                    _ => continue,
+                },
+                ValOwner::DirArg(r, i, a) => &dirs_mut(&mut d, r)[*i].args[*a].value,
+                ValOwner::VarDefault(di, vi) => match &d.defs[*di] {
+                    ExecDef::Op(o) => match &o.vars[*vi].default {
+                        Some(x) => x,
+                        None => continue,
+                    },
+                    _ => continue,
+                },
+            };
+            for &i in &s.inner {
+                v = match v {
+                    Val::List(vs, _) if i < vs.len() => &vs[i],
+                    Val::Obj(fs, _) if i < fs.len() => &fs[i].value,
+                    _ => {
+                        ok = false;
+                        break;
+                    }
+                };
+            }
+            if !ok {
+                continue;
+            }
+            v.clone()
+        };
+        let is_list_here = matches!(cur, Val::List(..));
+        if is_list_here {
+            // a list that holds a variable stays: dropping the only use of a variable would break 5.8.4
+            let mut vs = vec![];
+            cur.vars(&mut vs);
+            if !vs.is_empty() {
+                continue;
+            }
+        }
+        if !(is_leaf_literal(&cur) || is_list_here) || !rng.chance(2, 3) {
+            continue;
+        }
+        if is_list_here && !rng.chance(1, 3) {
+            continue; // mostly keep lists: their items are sites of their own
+        }
+        let new = match base {
+            "Int" => Val::Int(IN_INT32[rng.below(IN_INT32.len())].into(), p0()),
+            "Float" => match rng.below(3) {
+                0 => Val::Int(IN_INT32[rng.below(IN_INT32.len())].into(), p0()),
+                1 => Val::Int(OUT_OF_INT32[rng.below(OUT_OF_INT32.len())].into(), p0()),
+                _ => Val::Float(FLOATS[rng.below(FLOATS.len())].into(), p0()),
+            },
+            _ => match rng.below(3) {
+                0 => Val::Int(IN_INT32[rng.below(IN_INT32.len())].into(), p0()),
+                1 => Val::Int(OUT_OF_INT32[rng.below(OUT_OF_INT32.len())].into(), p0()),
+                _ => Val::Str("2147483648".into(), p0()),
+            },
+        };
+        let kind = match &new {
+            Val::Int(t, _) if OUT_OF_INT32.contains(&t.as_str()) => "int-literal-beyond-32-bit",
+            Val::Int(..) => "int-literal-32-bit-boundary",
+            Val::Float(..) => "float-literal-boundary",
+            _ => "string",
+        };
+        let place = if matches!(s.owner, ValOwner::VarDefault(..)) { "variable-default".to_string() } else { container_tag_of(&s.class) };
+        feats.insert(format!("boundary:{kind}-for-{base}@{place}{}", if is_list_here { "(single-value-for-list)" } else { "" }));
+        *val_mut(&mut out, &s.owner, &s.inner) = new;
+    }
+    if feats.is_empty() {
+        None
+    } else {
+        Some((out, feats))
+    }
+}
+
+fn container_tag_of(class: &str) -> String {
+    class.rsplit(':').next().unwrap_or("top").split('/').next().unwrap_or("top").to_string()
 }
 
 // ------------------------------------------------------------------------------------------------
